@@ -18,7 +18,8 @@ REQUIRED_OBS = ["phases_measured", "bytes_streamed_mib"]
 RULE = ("one dedicated worker process per (codec family, filter variant, texture, size, sink, position of the big member): the source is a generated stream "
         "(zeros / short period / PRNG bytes produced on the fly) written with writef, then extracted to a counting WriterFactory / to disk / checked with testzip(). "
         "Monitor: VmHWM reset before each phase (/proc/self/clear_refs) and read after it; violation when the rise exceeds 700 MiB (the README's upper figure). "
-        "Sizes 0.5 GiB (quick) to 2 GiB (thorough), i.e. well above the 128 MB extraction chunk. Cell = (chain, texture, phase, position).")
+        "Sizes 0.5 GiB (quick) to 2 GiB (thorough), i.e. well above the 128 MB extraction chunk. Shapes found by a bug hunt: 900 one-byte members in front of a member whose packed form "
+        "exceeds the budget; four folders of 400 MiB opened by name (one worker each); a 400 MiB member carrying the link attribute (raising is fine); psutil reporting 200 MB available. Cell = (chain, texture, phase, position).")
 ASSUMPTIONS = ["fast presets (the property is about memory, not ratio)", "the budget is the property's own figure; baseline is the RSS right before the phase, after imports and a warm-up"]
 
 CHAINS = {
@@ -38,12 +39,19 @@ def cases(rng, tier):
         for ch, tex in plan:
             out.append({"chain": ch, "texture": tex, "mib": size, "sinks": ["factory", "testzip"], "position": "only"})
         out.append({"chain": "ZSTD", "texture": "zeros", "mib": size, "sinks": ["disk"], "position": "between"})
+        for sh in ("tiny-before-big", "many-folders", "link-of-member-size", "memory-short"):
+            out.append({"shape": sh, "chain": "ZSTD" if sh == "tiny-before-big" else "LZMA2", "texture": "random" if sh == "tiny-before-big" else "zeros", "mib": 900 if sh == "tiny-before-big" else 400,
+                        "sinks": [], "position": sh})
     else:
         for ch in CHAINS:
             for tex in ("zeros", "period", "random"):
                 if tex == "random" and ch in ("PPMD", "BZIP2", "LZMA", "LZMA2", "X86+LZMA2", "DELTA+LZMA2", "LZMA2+AES", "BROTLI", "DEFLATE64"):
                     continue  # minutes of compression per GiB for no additional memory behaviour
                 out.append({"chain": ch, "texture": tex, "mib": size, "sinks": ["factory", "testzip", "disk"], "position": rng.choice(["only", "first", "last", "between"])})
+        for sh, ch, tex, mib in (("tiny-before-big", "ZSTD", "random", 900), ("tiny-before-big", "DEFLATE", "random", 900), ("tiny-before-big", "LZMA2", "random", 800), ("tiny-before-big", "COPY+AES", "random", 900),
+                                 ("many-folders", "LZMA2", "zeros", 400), ("many-folders", "ZSTD", "zeros", 600), ("many-folders", "BZIP2", "zeros", 300),
+                                 ("link-of-member-size", "LZMA2", "zeros", 400), ("link-of-member-size", "COPY", "zeros", 1024), ("memory-short", "LZMA2", "zeros", 400), ("memory-short", "ZSTD", "period", 1024)):
+            out.append({"shape": sh, "chain": ch, "texture": tex, "mib": mib, "sinks": [], "position": sh})
     return out
 
 
@@ -165,7 +173,11 @@ def run_case(case):
                 viol.append({"key": "phase-raises/%s/%s/%s" % (label.split(":")[0], case["chain"], type(err).__name__), "what": "%s (%s, %s) raised %s" % (label, case["chain"], case["texture"], pz.exc_sig(err))})
             return err
 
-        src = GenStream(size, case["texture"])
+        if case.get("shape"):
+            _run_shape(case, d, arc, filters, pw, size, measure, viol, obs)
+            src = None
+        else:
+            src = GenStream(size, case["texture"])
         small = b"small neighbour member\n" * 40
 
         def write():
@@ -176,7 +188,7 @@ def run_case(case):
                 if case["position"] in ("first", "between"):
                     z.writestr(small, "small-after")
 
-        if measure("write", write) is None:
+        if src is not None and measure("write", write) is None:
             want_crc = src.crc
             obs["archive_mib"] = os.path.getsize(arc) >> 20
             for sink in case["sinks"]:
@@ -232,6 +244,162 @@ def run_case(case):
             seen.setdefault(v["key"], v)
         return K.result("violated", violations=list(seen.values()), cells=cells, obs=obs, sample=sample)
     return K.result("held", cells=cells, obs=obs, sample=sample)
+
+
+def _run_shape(case, d, arc, filters, pw, size, measure, viol, obs):
+    """Shapes a bug hunt found (third round): the budget has to hold for them as for one big member."""
+    import stat
+
+    import py7zr
+    from py7zr import properties as P
+
+    shape = case["shape"]
+    tag = "%s (%s, %d MiB %s)" % (shape, case["chain"], case["mib"], case["texture"])
+
+    def check_big(fac, names, want):
+        got = {n: o for n, o in fac.created}
+        for n in names:
+            if n not in got or got[n].n != want[n][0] or got[n].crc != want[n][1]:
+                viol.append({"key": "content/%s/%s" % (shape, case["chain"]), "what": "%s: member %r delivered with %r bytes or a wrong CRC" % (tag, n, got[n].n if n in got else None)})
+
+    if shape == "tiny-before-big":
+        # many one-byte members in front of a member whose packed form is larger than the budget: every call that asks for one byte
+        # must not pull another block of packed input into the decoder
+        src = GenStream(size, case["texture"])
+
+        def write():
+            with py7zr.SevenZipFile(arc, "w", filters=filters, password=pw) as z:
+                for i in range(900):
+                    z.writestr(b"x", "tiny/%05d.txt" % i)
+                z.writef(src, "big.bin")
+
+        if measure("write", write) is not None:
+            return
+        obs["archive_mib"] = os.path.getsize(arc) >> 20
+        for label, opener in (("extract:factory", lambda: py7zr.SevenZipFile(open(arc, "rb"), "r", password=pw)), ("testzip", lambda: py7zr.SevenZipFile(arc, "r", password=pw))):
+            fac = CountFactory()
+            res = {}
+
+            def run():
+                with opener() as z:
+                    if label == "testzip":
+                        res["v"] = z.testzip()
+                    else:
+                        z.extractall(factory=fac)
+
+            if measure(label, run) is None:
+                if label == "testzip" and res.get("v") is not None:
+                    viol.append({"key": "testzip-flags-intact/%s" % case["chain"], "what": "%s: testzip() returned %r" % (tag, res["v"])})
+                elif label != "testzip":
+                    check_big(fac, ["big.bin"], {"big.bin": (size, src.crc)})
+    elif shape == "many-folders":
+        # four folders (one create and three append sessions), opened by name: one worker per folder, all at once
+        want = {}
+        srcs = []
+
+        def write():
+            for i in range(4):
+                s_ = GenStream(size, case["texture"], seed=i + 1)
+                with py7zr.SevenZipFile(arc, "w" if i == 0 else "a", filters=filters, password=pw) as z:
+                    z.writef(s_, "big%d.bin" % i)
+                want["big%d.bin" % i] = (size, s_.crc)
+
+        if measure("write", write) is not None:
+            return
+        obs["archive_mib"] = os.path.getsize(arc) >> 20
+        out = os.path.join(d, "out")
+
+        def dx():
+            with py7zr.SevenZipFile(arc, "r", password=pw) as z:
+                z.extractall(out)
+
+        if measure("extract:disk", dx) is None:
+            for n in want:
+                p_ = os.path.join(out, n)
+                if not os.path.exists(p_) or os.path.getsize(p_) != size:
+                    viol.append({"key": "content-disk/%s/%s" % (shape, case["chain"]), "what": "%s: %r on disk has a wrong size" % (tag, n)})
+        import shutil
+
+        shutil.rmtree(out, ignore_errors=True)
+        res = {}
+
+        def tz():
+            with py7zr.SevenZipFile(arc, "r", password=pw) as z:
+                res["v"] = z.testzip()
+
+        if measure("testzip", tz) is None and res.get("v") is not None:
+            viol.append({"key": "testzip-flags-intact/%s" % case["chain"], "what": "%s: testzip() returned %r" % (tag, res["v"])})
+    elif shape == "link-of-member-size":
+        # a small archive whose large member carries the link attribute: raising is fine, decoding it whole into memory is not
+        src = GenStream(size, case["texture"])
+        with py7zr.SevenZipFile(arc, "w", filters=filters, password=pw) as z:
+            z.writef(src, "lnk")
+            z.header.files_info.files[-1]["attributes"] = stat.FILE_ATTRIBUTE_ARCHIVE | stat.FILE_ATTRIBUTE_REPARSE_POINT | 0x8000 | ((stat.S_IFLNK | 0o777) << 16)
+        obs["archive_mib"] = os.path.getsize(arc) >> 20
+        out = os.path.join(d, "out")
+        res = {}
+
+        def dx():
+            try:
+                with py7zr.SevenZipFile(arc, "r", password=pw) as z:
+                    res["link"] = z.files[0].is_symlink
+                    z.extractall(out)
+                res["outcome"] = "extracted"
+            except MemoryError:
+                raise
+            except Exception as e:
+                res["outcome"] = "raised " + type(e).__name__
+
+        measure("extract:disk", dx)
+        obs["link_members_seen"] = 1 if res.get("link") else 0
+        if not res.get("link"):
+            viol.append({"key": "harness/link-attribute-lost", "what": "%s: the member does not read back as a link" % tag})
+    elif shape == "memory-short":
+        # the machine is short of memory (psutil reports 200 MB available): the extraction chunk must shrink, not vanish
+        src = GenStream(size, case["texture"])
+
+        def write():
+            with py7zr.SevenZipFile(arc, "w", filters=filters, password=pw) as z:
+                z.writestr(b"first member\n", "a.txt")
+                z.writef(src, "big.bin")
+                z.writestr(b"last member\n", "z.txt")
+
+        if measure("write", write) is not None:
+            return
+        obs["archive_mib"] = os.path.getsize(arc) >> 20
+
+        class ShortOfMemory:
+            @staticmethod
+            def virtual_memory():
+                class VM:
+                    available = 200 * 1000 * 1000
+
+                return VM
+
+        o_ps, o_res = P._psutil, P._resource
+        if o_ps is None or o_res is None:
+            return
+        P._psutil = ShortOfMemory
+        try:
+            obs["memory_limit_reported"] = P.get_memory_limit()
+            fac = CountFactory()
+            res = {}
+
+            def ext():
+                with py7zr.SevenZipFile(arc, "r", password=pw) as z:
+                    z.extractall(factory=fac)
+
+            if measure("extract:factory", ext) is None:
+                check_big(fac, ["a.txt", "big.bin", "z.txt"], {"a.txt": (13, zlib.crc32(b"first member\n")), "big.bin": (size, src.crc), "z.txt": (12, zlib.crc32(b"last member\n"))})
+
+            def tz():
+                with py7zr.SevenZipFile(arc, "r", password=pw) as z:
+                    res["v"] = z.testzip()
+
+            if measure("testzip", tz) is None and res.get("v") is not None:
+                viol.append({"key": "testzip-flags-intact/%s/%s" % (shape, case["chain"]), "what": "%s: testzip() returned %r on the intact archive" % (tag, res["v"])})
+        finally:
+            P._psutil = o_ps
 
 
 def _encoder_alone_grows(lib, texture, mib=192) -> bool:
